@@ -23,7 +23,16 @@ import (
 type c07Parse struct {
 	Input    []byte      `json:"input"`
 	Delivery hx.Delivery `json:"delivery"`
+	// Between: another header is parsed (and its payload read) between Parse
+	// returning and the use of its results
+	Between bool `json:"between,omitempty"`
 }
+
+// c07Other is the header parsed in between.
+var c07Other = func() []byte {
+	h := refage.Header{MAC: hx.PRG(5, 32), Stanzas: []refage.Stanza{{Type: "other", Args: []string{"arg1", "arg2"}, Body: hx.PRG(6, 100)}, {Type: "X25519", Args: []string{"zzzz"}, Body: hx.PRG(7, 32)}}}
+	return append(h.Marshal(), hx.PRG(8, 3000)...)
+}()
 
 // c07CheckParse is oracle A: reject => nil results; accept => marshal+rest == input.
 func c07CheckParse(c c07Parse, st *stats.Run, count bool) error {
@@ -46,6 +55,14 @@ func c07CheckParse(c c07Parse, st *stats.Run, count bool) error {
 	if hdr == nil || payload == nil {
 		return pbt.Failf("C07/nil-on-success", "Parse succeeded with nil header or payload")
 	}
+	if c.Between {
+		oh, op, oerr := format.Parse(bytes.NewReader(c07Other))
+		if oerr != nil {
+			return pbt.Failf("C07/wellformed-rejected", "the header parsed in between was rejected: %v", oerr)
+		}
+		io.ReadAll(op)
+		_ = oh
+	}
 	var buf bytes.Buffer
 	if err := hdr.Marshal(&buf); err != nil {
 		return pbt.Failf("C07/marshal-error", "Marshal of parsed header failed: %v", err)
@@ -55,7 +72,7 @@ func c07CheckParse(c c07Parse, st *stats.Run, count bool) error {
 		return pbt.Failf("C07/payload-read", "reading payload: %v", rerr)
 	}
 	if count {
-		st.Case(true, stats.Hash(c.Input), "accepted", fmt.Sprintf("accepted-stanzas=%d", min(len(hdr.Recipients), 3)), "delivery="+c.Delivery.Mode)
+		st.Case(true, stats.Hash(c.Input), "accepted", fmt.Sprintf("accepted-stanzas=%d", min(len(hdr.Recipients), 3)), "delivery="+c.Delivery.Mode, fmt.Sprintf("other-parse-in-between=%v", c.Between))
 		st.Sample("accepted-"+c.Delivery.Mode, map[string]any{"input": string(c.Input), "delivery": c.Delivery})
 	}
 	got := append(buf.Bytes(), rest...)
@@ -416,7 +433,7 @@ func TestC07(t *testing.T) {
 		if rapid.IntRange(0, 4).Draw(t, "texttail") == 0 {
 			tail = []byte("-> x\n--- " + c07MAC + "\n")
 		}
-		return c07Parse{Input: append(in, tail...), Delivery: genDelivery(t)}
+		return c07Parse{Input: append(in, tail...), Delivery: genDelivery(t), Between: rapid.IntRange(0, 2).Draw(t, "between") == 0}
 	}, func(c c07Parse) error { return c07CheckParse(c, s.St, true) })
 
 	// B: well-formed headers marshal to text that parses back to an equal header
